@@ -81,6 +81,8 @@ Clauses ==
    C05_CrisisInvariant |-> Crisis_Invariant,
    Rejected_NoEffect |-> Rejected_NoEffect(pre, ev, st),
    C06_Budget |-> C06_Budget(st, gh),
+   C06_Funded |-> C06_Funded(st, gh),
+   C06_AdjustApplies |-> C06_AdjustApplies(pre, ev, st),
    C06_Covered |-> C06_Covered(st, gh),
    C06_ProRata |-> C06_ProRata(st, gh),
    C06_Flows |-> C06_Flows(pre, ev, st),
@@ -88,6 +90,7 @@ Clauses ==
    C06_RefundOnce |-> C06_RefundOnce(pre, ev, st, gh),
    C13_QueueSound |-> C13_QueueSound(st),
    C13_QueueComplete |-> C13_QueueComplete(st, gh),
+   C13_OnceOnTime |-> C13_OnceOnTime(pre, ev, st, gh),
    C13_NoHalt |-> C13_NoHalt(ev)]
 
 Failing == IF ev.name = "Init" \/ ev.halt
